@@ -1220,6 +1220,25 @@ package sarama
 //@   loop 0: iter_ensures[not_intercepted_again @C18] msg != nil && (it(msg.retries) != 0 || it(msg.flags) != 0) ==> msg.intercepted == it(msg.intercepted)
 //@   loop 1: invariant msg.intercepted == it(msg.intercepted) + $i && msg.retries == it(msg.retries) && msg.flags == it(msg.flags) && msg.disp == it(msg.disp) && wgcount(p.inFlight) == it(wgcount(p.inFlight)) + ite(it(msg.retries) == 0, 1, 0) && msg.errEvents == it(msg.errEvents)
 
+// (C01, C17) the topic worker: a message is partitioned on its first pass only (a retried message keeps the partition
+// it was given), a message that cannot be partitioned is failed, every other message is handed - once - to the worker
+// of its own topic and partition, which is created on first use and remembered under that partition.
+//@ func (p *asyncProducer) newPartitionProducer(topic, partition) trusted
+//@   returns ch
+//@   ensures ch != nil
+//@   modifies nothing
+//@ func (tp *topicProducer) dispatch() props C01 C17
+//@   requires tp.parent != nil && tp.handlers != nil
+//@   callsite topicProducer.partitionMessage: requires[partitioned_on_the_first_pass_only] $msg == msg && msg.retries == 0
+//@   callsite asyncProducer.newPartitionProducer: requires[worker_for_the_messages_own_partition] $topic == msg.Topic && $partition == msg.Partition
+//@   callsite send.handler: requires[to_the_worker_of_its_partition] $value == msg && haskey(tp.handlers, msg.Partition) && $channel == tp.handlers[msg.Partition] && $channel != nil
+//@   callsite send.handler: modifies msg.disp
+//@   callsite send.handler: effect msg.disp == old(msg.disp) + 1
+//@   loop 0: invariant tp.parent == old(tp.parent) && tp.handlers != nil
+//@   loop 0: iter_ensures[handed_on_or_failed_once @C01] msg.disp == it(msg.disp) + 1
+//@   loop 0: iter_ensures[a_retried_message_keeps_its_partition @C17] it(msg.retries) != 0 ==> msg.Partition == it(msg.Partition) && msg.disp == it(msg.disp) + 1 && msg.errEvents == it(msg.errEvents)
+//@   nosafety
+
 // spawns the topic worker; touches no message, produce set or configuration (A-own)
 //@ func (p *asyncProducer) newTopicProducer(topic) trusted
 //@   returns ch
@@ -1469,6 +1488,38 @@ package sarama
 //@   modifies nothing
 //@ func (p *asyncProducer) abandonBrokerConnection(broker) trusted
 //@   modifies nothing
+
+// ---------------------------------------------------------------------------------------------
+// consumer.go, where a partition consumer starts and what it asks for (C03, C11).
+// chooseStartingOffset: a consumer started at S begins exactly at S when S lies within the log, at the log's newest /
+// oldest position for the two symbolic values, and nowhere (an error) otherwise.
+// fetchNewMessages: every subscribed partition is asked for from the consumer's own next offset with its own fetch
+// size, under the configured isolation level wherever the protocol version carries one (from 0.11).
+//@ ghost func logEnd(string, int32, int64) int64
+//@ func (c Client) GetOffset(topic, partitionID, time) trusted
+//@   returns o, err
+//@   ensures o == logEnd(topic, partitionID, time)
+//@   modifies nothing
+//@ func (child *partitionConsumer) chooseStartingOffset(offset) props C03
+//@   returns err
+//@   requires child.consumer != nil
+//@   ensures[starts_at_the_requested_offset_when_in_the_log] err == nil && offset != OffsetNewest && offset != OffsetOldest ==> child.offset == offset && logEnd(child.topic, child.partition, OffsetOldest) <= offset && offset <= logEnd(child.topic, child.partition, OffsetNewest)
+//@   ensures[newest_means_the_log_end] err == nil && offset == OffsetNewest ==> child.offset == logEnd(child.topic, child.partition, OffsetNewest)
+//@   ensures[oldest_means_the_log_start] err == nil && offset == OffsetOldest ==> child.offset == logEnd(child.topic, child.partition, OffsetOldest)
+//@   ensures[position_untouched_on_error] err != nil ==> child.offset == old(child.offset)
+//@   modifies child.offset
+//@ func (r *FetchRequest) AddBlock(topic, partitionID, fetchOffset, maxBytes) trusted
+//@   modifies r.blocks, maps
+//@ func (b *Broker) Fetch(request) trusted
+//@   returns rsp, err
+//@   modifies nothing
+//@ func (bc *brokerConsumer) fetchNewMessages() props C03 C11
+//@   returns rsp, err
+//@   requires bc.consumer != nil && bc.consumer.conf != nil
+//@   callsite FetchRequest.AddBlock: requires[asks_from_the_consumers_own_position] $recv == request && $topic == child.topic && $partitionID == child.partition && $fetchOffset == child.offset && $maxBytes == child.fetchSize
+//@   callsite Broker.Fetch: requires[isolation_level_of_the_configuration @C11] $request == request && (verAtLeast(bc.consumer.conf.Version, V0_11_0_0) ==> request.Version >= 4 && request.Isolation == bc.consumer.conf.Consumer.IsolationLevel)
+//@   callsite Broker.Fetch: requires[to_the_broker_of_this_worker] $recv == bc.broker
+//@   nosafety
 
 // ---------------------------------------------------------------------------------------------
 // whole-buffer consumption (C10: a length that disagrees with the data is an error)
@@ -2012,9 +2063,23 @@ package sarama
 //@ func (c *consumerGroup) retryNewSession(ctx, topics, handler, retries, refreshCoordinator) trusted
 //@   returns s, err
 //@   modifies c.memberID, c.userData
-//@ func (c *consumerGroup) balance(members) trusted
+// (C08, driver side) the leader offers the strategy every topic some member subscribes to, each with the partition
+// list the client reports for it, and the member metadata it was given
+//@ func (s BalanceStrategy) Plan(members, topics) trusted
 //@   returns plan, err
 //@   modifies nothing
+//@ func (c *consumerGroup) balance(members) props C08
+//@   returns plan, err
+//@   loopname bymember: range members
+//@   loopname subscribed: range meta.Topics
+//@   loopname lookup: range topics
+//@   loop bymember: invariant[offered] topics != nil && forall m string, j int :: $visited[m] && 0 <= j && j < len(members[m].Topics) ==> haskey(topics, members[m].Topics[j])
+//@   loop subscribed: invariant[offered] topics != nil && forall m string, j int :: $visited_bymember[m] && m != $key_bymember && 0 <= j && j < len(members[m].Topics) ==> haskey(topics, members[m].Topics[j])
+//@   loop subscribed: invariant[offered_so_far +offered] haskey(members, $key_bymember) && meta == members[$key_bymember] && forall j :: 0 <= j && j < $i ==> haskey(topics, meta.Topics[j])
+//@   loop lookup: invariant[offered] topics != nil && forall m string, j int :: haskey(members, m) && 0 <= j && j < len(members[m].Topics) ==> haskey(topics, members[m].Topics[j])
+//@   callsite Partitions: requires[partitions_of_the_topic_itself] $arg0 == topic
+//@   callsite Plan: requires[every_subscribed_topic_is_offered] $arg0 == members && forall m string, j int :: haskey(members, m) && 0 <= j && j < len(members[m].Topics) ==> haskey($arg1, members[m].Topics[j])
+//@   nosafety
 //@ func (r *JoinGroupResponse) GetMembers() trusted
 //@   returns m, err
 //@   modifies nothing
@@ -2338,8 +2403,17 @@ package sarama
 //@   nosafety
 
 // run: one input message per iteration. (The message sizes are those the dispatcher admitted: A-input bound.)
-//@ func (bp *brokerProducer) shutdown() trusted
-//@   modifies bp.buffer, bp.timer, bp.timerFired, bp.closing
+// (C01) shutdown of a broker worker: the output bridge is closed only once the buffer holds no message (each pass of
+// the first loop either flushes the buffer - which is then rolled over - or handles a response), every response that
+// still arrives is handled, and the stop channel is closed last.
+//@ func (bp *brokerProducer) shutdown() props C01
+//@   requires bp.buffer != nil && bp.parent != nil
+//@   callsite send.output: requires[flushes_the_pending_buffer] $value == bp.buffer
+//@   callsite close.output: requires[bridge_closed_only_when_nothing_is_buffered] bp.buffer.bufferCount == 0
+//@   loop 0: invariant bp.buffer != nil && bp.parent == old(bp.parent)
+//@   loop 1: invariant bp.buffer != nil && bp.parent == old(bp.parent)
+//@   nosafety
+//@   modifies $chan, bp.buffer, bp.timer, bp.timerFired, bp.closing, produceSet.handled, produceSet.bufferBytes, produceSet.bufferCount, produceSet.msgs, produceSet.swept, partitionSet.bufferBytes, partitionSet.msgs, ProducerMessage.disp, ProducerMessage.errEvents, ProducerMessage.succEvents, ProducerMessage.flags, ProducerMessage.retries, ProducerMessage.sequenceNumber, ProducerMessage.producerEpoch, ProducerMessage.hasSequence, ProducerMessage.Offset, ProducerMessage.Timestamp, transactionManager.producerEpoch, $wg, maps
 //@ func (bp *brokerProducer) run() props C16 C05
 //@   callsite brokerProducer.rollOver: effect bp.rolls == old(bp.rolls) + 1
 //@   callsite brokerProducer.rollOver: modifies bp.rolls
@@ -2682,9 +2756,19 @@ package sarama
 //@ ghost field offsetManager.flushes int
 // the steps of Close are trusted: they may change anything reachable except the configuration (A-own: a Config is
 // not written after Validate) and the ghost counter
-//@ func (om *offsetManager) flushToBroker() trusted
+// flushToBroker is verified for what it does with the request (C06): what is sent to the coordinator is the request
+// constructRequest built from the dirty partitions - nothing when there is none -, and the coordinator's answer is
+// applied to that same request (handleResponse compares the acknowledged pairs with the pairs *sent*).
+// Its effect on the rest of the state stays assumed (the clause below, which Close relies on).
+//@ func (b *Broker) CommitOffset(request) trusted
+//@   returns rsp, err
+//@   modifies nothing
+//@ func (om *offsetManager) flushToBroker() props C06
 //@   effect om.flushes == old(om.flushes) + 1
-//@   ensures om.conf == old(om.conf) && om.conf.Consumer.Offsets.Retry.Max == old(om.conf.Consumer.Offsets.Retry.Max) && om.conf.Consumer.Offsets.AutoCommit.Enable == old(om.conf.Consumer.Offsets.AutoCommit.Enable)
+//@   callsite Broker.CommitOffset: requires[commits_the_request_built_from_the_dirty_partitions] $request == req && req != nil
+//@   callsite offsetManager.handleResponse: requires[the_answer_is_applied_to_the_request_it_answers] $req == req && $resp == resp && $broker == broker && err == nil
+//@   nosafety
+//@   assumed[configuration_kept] om.conf == old(om.conf) && om.conf.Consumer.Offsets.Retry.Max == old(om.conf.Consumer.Offsets.Retry.Max) && om.conf.Consumer.Offsets.AutoCommit.Enable == old(om.conf.Consumer.Offsets.AutoCommit.Enable)
 //@   modifies *
 //@ func (om *offsetManager) asyncClosePOMs() trusted
 //@   ensures om.conf == old(om.conf) && om.conf.Consumer.Offsets.Retry.Max == old(om.conf.Consumer.Offsets.Retry.Max) && om.conf.Consumer.Offsets.AutoCommit.Enable == old(om.conf.Consumer.Offsets.AutoCommit.Enable) && om.flushes == old(om.flushes)
